@@ -104,12 +104,55 @@ class Layout:
                             out.append(f"u{bits}{'' if bits == 8 else end}({self.intexpr(a)})")
                         return out
             if isinstance(f, ast.Attribute) and f.attr == "join" and isinstance(f.value, ast.Constant) \
-                    and f.value.value == b"" and len(e.args) == 1 and isinstance(e.args[0], (ast.List, ast.Tuple)):
-                out = []
-                for x in e.args[0].elts:
-                    out += self.parts(x)
-                return out
+                    and f.value.value == b"" and len(e.args) == 1:
+                lp = self.list_parts(e.args[0])
+                if lp is not None:
+                    return lp
         return [self.text(e)]
+
+    def list_parts(self, e):
+        """Layout parts of the concatenation of the items of a list-valued expression:
+        [a, b] | (a, b) | L1 + L2 | [E for x in XS] | (E for x in XS) | list(..)/tuple(..) of those |
+        map(F, XS) | <init list> + REPEAT([item]) (append loops); None when not understood."""
+        if isinstance(e, (ast.List, ast.Tuple)):
+            out = []
+            for x in e.elts:
+                if isinstance(x, ast.Starred):
+                    sub = self.list_parts(x.value)
+                    if sub is None:
+                        return None
+                    out += sub
+                else:
+                    out += self.parts(x)
+            return out
+        if isinstance(e, ast.BinOp) and isinstance(e.op, ast.Add):
+            a, b = self.list_parts(e.left), self.list_parts(e.right)
+            if a is None or b is None:
+                return None
+            return a + b
+        if isinstance(e, (ast.ListComp, ast.GeneratorExp)) and len(e.generators) == 1 and not e.generators[0].ifs \
+                and not e.generators[0].is_async:
+            gen = e.generators[0]
+            elt = _subst_target(e.elt, gen.target, gen.iter)
+            if elt is None:
+                return None
+            inner = self.canon(elt)
+            return [f"repeat({inner})"]
+        if isinstance(e, ast.Call) and isinstance(e.func, ast.Name) and e.func.id in ("list", "tuple") and len(e.args) == 1:
+            return self.list_parts(e.args[0])
+        if isinstance(e, ast.Call) and isinstance(e.func, ast.Name) and e.func.id == "map" and len(e.args) == 2:
+            fn_, xs = e.args
+            elem = ast.Call(func=ast.Name(id="ELEM", ctx=ast.Load()), args=[xs], keywords=[])
+            if isinstance(fn_, ast.Lambda) and len(fn_.args.args) == 1:
+                body = _subst_target(fn_.body, ast.Name(id=fn_.args.args[0].arg, ctx=ast.Store()), xs)
+                return None if body is None else [f"repeat({self.canon(body)})"]
+            return [f"repeat({self.canon(ast.Call(func=fn_, args=[elem], keywords=[]))})"]
+        if isinstance(e, ast.Call) and isinstance(e.func, ast.Name) and e.func.id == "REPEAT" and len(e.args) == 1:
+            inner = self.list_parts(e.args[0])
+            if inner is None:
+                return None
+            return [f"repeat({' | '.join(p for p in inner if p != '')})"]
+        return None
 
     def _is_bytes(self, e):
         """Heuristic: a `+` chain is a byte concatenation if any leaf is a
@@ -207,3 +250,23 @@ class Layout:
             return (isinstance(f, ast.Name) and f.id == "bytes") or \
                 (isinstance(f, ast.Attribute) and f.attr in ("to_bytes", "fromhex"))
         return isinstance(a, ast.Constant) and isinstance(a.value, bytes)
+
+
+def _subst_target(expr, target, iterable):
+    """expr with the comprehension / loop target replaced by ELEM(iterable) (ELEMi for tuple targets)."""
+    import copy
+    m = {}
+    if isinstance(target, ast.Name):
+        m[target.id] = ast.Call(func=ast.Name(id="ELEM", ctx=ast.Load()), args=[iterable], keywords=[])
+    elif isinstance(target, (ast.Tuple, ast.List)) and all(isinstance(x, ast.Name) for x in target.elts):
+        for i, x in enumerate(target.elts):
+            m[x.id] = ast.Call(func=ast.Name(id=f"ELEM{i}", ctx=ast.Load()), args=[iterable], keywords=[])
+    else:
+        return None
+
+    class T(ast.NodeTransformer):
+        def visit_Name(self, node):
+            if isinstance(node.ctx, ast.Load) and node.id in m:
+                return copy.deepcopy(m[node.id])
+            return node
+    return T().visit(copy.deepcopy(expr))
